@@ -1,4 +1,5 @@
 import RadicaleProofs.TraceEffect
+import RadicaleProofs.PropsReq
 import RadicaleProofs.Dav
 import RadicaleProofs.DavStore
 /-
@@ -224,6 +225,26 @@ private def fsOld : Radicale.Trace.FS := fun p =>
 example : Radicale.Trace.applyAll fsOld (Radicale.Trace.createCollection true cal true (some ["a.ics".toList]) 0 true 0) (cal ++ ["x.ics".toList]) = none ∧
     Radicale.Trace.applyAll fsOld (Radicale.Trace.createCollection true cal true (some ["a.ics".toList]) 0 true 0) (cal ++ ["a.ics".toList]) = some (.file true) ∧
     Radicale.Trace.applyAll fsOld (Radicale.Trace.createCollection true cal true (some ["a.ics".toList]) 0 true 0) cal = some .dir := by
+  decide +kernel
+
+/-! ### properties: `props_from_request` and PROPPATCH (model RadicaleModel/PropsReq.lean) -/
+
+/-- **the last write to a property wins, within one request too**: after a PROPPATCH (or the property part of MKCOL /
+    MKCALENDAR) property `k` is what the *last* instruction of the body for `k` says — its value, or gone — whatever
+    mixture and order of `<set>` and `<remove>` elements the body holds; properties the body does not name are untouched -/
+theorem proppatch_last_instruction_wins (ps : Radicale.PropsReq.Props) (is : List Radicale.PropsReq.Instr) (k : String) :
+    Radicale.PropsReq.lookup (Radicale.PropsReq.apply ps (Radicale.PropsReq.propsFromRequest is)) k =
+      match Radicale.PropsReq.lastFor is k with
+      | some i => if i.isSet then some i.value else none
+      | none => Radicale.PropsReq.lookup ps k :=
+  Radicale.PropsReq.proppatch_last_instruction_wins ps is k
+
+/-- `props_from_request` names every property once -/
+theorem props_from_request_one_entry_per_property (is : List Radicale.PropsReq.Instr) :
+    ((Radicale.PropsReq.propsFromRequest is).map (·.1)).Nodup := Radicale.PropsReq.propsFromRequest_nodup is
+
+example : Radicale.PropsReq.lookup (Radicale.PropsReq.apply [("D:displayname", "old")]
+    (Radicale.PropsReq.propsFromRequest [⟨false, "D:displayname", ""⟩, ⟨true, "D:displayname", "new"⟩])) "D:displayname" = some "new" := by
   decide +kernel
 
 end C01
